@@ -6,7 +6,7 @@ from models import macs, selfcheck
 PROPERTY_ID = "C08"
 RULE = ("programs Hmac::new(digest, key); input(chunk)*; raw_result | result().code() | output_bytes for all 16 fixed legacy digests plus BLAKE2b outlen "
         "{1,20,32,64} and BLAKE2s {1,16,32}: key length {0,1,B-1,B,B+1,2B+5} x 2 key patterns x message length {0,1,B-1,B,B+1,2B+3} x chunking "
-        "(one call, 2-splits at {1,B-1,B,B+1}) and every sequence of <= 3 chunks over {0,1,B-1,B,B+1,2B+1} for two keys; oracle = RFC 2104 over the "
+        "(one call, 2-splits at {1,B-1,B,B+1}) and every sequence of <= 3 chunks over {0,1,B-1,B,B+1,2B+1} for two keys, every key length 0..=2B+5 (thorough: all digests, and every 4-chunk sequence); oracle = RFC 2104 over the "
         "reference hashes (equal to python's hmac module wherever hashlib has the digest); non-trivial = non-empty key or message")
 ASSUMPTIONS = ["reference hashes as in C01", "RFC 2104 construction in python, cross-checked against the hmac module for 12 digests and RFC 4231 #2",
                "HMAC block size for SHA-3/Keccak is the sponge rate (what the legacy digest objects report, and what hashlib uses)"]
@@ -21,7 +21,7 @@ def builds_needed(tier):
 
 
 def bounds(tier):
-    return {"digests": len(KINDS), "key_lengths": "0,1,B-1,B,B+1,2B+5", "message_lengths": "0,1,B-1,B,B+1,2B+3", "chunk_tree_depth": 3}
+    return {"digests": len(KINDS), "key_lengths": "0,1,B-1,B,B+1,2B+5", "message_lengths": "0,1,B-1,B,B+1,2B+3", "chunk_tree_depth": 4 if tier == "thorough" else 3, "every_key_length_0_to_2B+5": "all digests" if tier == "thorough" else "sha256, sha3_256, blake2b:32"}
 
 
 def validate_models(tier):
@@ -73,6 +73,25 @@ def shard_kind(kind, tier):
                     t = obs_of(mac(key, pat(6, 0, a + b + c)))
                     cases.append(([new, "minput s0 %s" % P(6, 0, a), "minput s0 %s" % P(6, a, b), "minput s0 %s" % P(6, a + b, c), "mresult s0"],
                                   ["-", "-", "-", "-", t], {"nt": True}))
+    # every key length across the pad / hash-the-key boundary (thorough: for every digest; quick: three digests)
+    if tier == "thorough" or kind in ("sha256", "sha3_256", "blake2b:32"):
+        for kl in range(0, 2 * B + 6):
+            key = pat(7, 3, kl)
+            new = "mnew s0 hmac %s %s" % (kind, P(7, 3, kl) if kl else "h:")
+            for ml in ((0, 1, B + 1) if tier == "thorough" else (B + 1,)):
+                t = obs_of(mac(key, pat(6, 0, ml)))
+                cases.append(([new, "minput s0 %s" % (P(6, 0, ml) if ml else "h:"), "mraw s0"], ["-", "-", t], {"nt": True}))
+    if tier == "thorough":
+        # every sequence of 4 chunks for one key
+        key = pat(5, 0, 7)
+        new = "mnew s0 hmac %s %s" % (kind, P(5, 0, 7))
+        for a in A:
+            for b in A:
+                for c in A:
+                    for d in A:
+                        t = obs_of(mac(key, pat(6, 0, a + b + c + d)))
+                        cases.append(([new, "minput s0 %s" % P(6, 0, a), "minput s0 %s" % P(6, a, b), "minput s0 %s" % P(6, a + b, c),
+                                       "minput s0 %s" % P(6, a + b + c, d), "mraw s0"], ["-", "-", "-", "-", "-", t], {"nt": True}))
     ck.run(cases, nontrivial=_nt)
     ck.stats.states = len(cases) + 1
     return ck.stats
